@@ -140,7 +140,7 @@ theorem sqConn_ok {d} {s : St} (q : Query) (srv : Server) (hw : Wf s) (hd : Debt
     refine ⟨Mid.refl hw hd, fun fd' h => ?_, rfl⟩
     have : fd' = fd := by injection h with h; exact h.symm
     rw [this]; exact sqExisting_hasConn hw hsrv hex
-  · exact ⟨(sqOpen_ok q srv hw hd).1, (sqOpen_ok q srv hw hd).2, byQid_sqOpen s q srv⟩
+  · exact ⟨(sqOpen_ok q srv hw hd hsrv).1, (sqOpen_ok q srv hw hd hsrv).2, byQid_sqOpen s q srv⟩
 
 theorem good_sendQuery {go} (hgo : GoOk go) {d reqSrv key s} (hpre : Pre d s (.sendQuery reqSrv key)) :
     GoodO d (.sendQuery reqSrv key) s (bodySendQuery go reqSrv key s) := by
